@@ -125,3 +125,34 @@ func init() {
 		notApplicable[id] = "no static rule for this property is built into the checker at this commit (see DESIGN.md §4 for the clauses planned); nothing is claimed"
 	}
 }
+
+// printRulesMD writes, per property, the rules that serve it (with the scope a rule is
+// restricted to, if any) and each rule's line of documentation.
+func printRulesMD() int {
+	props := propertyTable()
+	reg := registry()
+	for _, id := range allPropertyIDs() {
+		p, ok := props[id]
+		if !ok {
+			continue
+		}
+		fmt.Printf("**%s** - %d rules\n\n", id, len(p.Rules))
+		for _, rn := range p.Rules {
+			name, scope := rn, ""
+			if i := strings.Index(rn, "~"); i >= 0 {
+				name, scope = rn[:i], rn[i+1:]
+			}
+			doc := ""
+			if r := reg[name]; r != nil {
+				doc = r.Doc
+			}
+			if scope != "" {
+				fmt.Printf("* `%s` (constructs matching `%s`): %s\n", name, scope, doc)
+			} else {
+				fmt.Printf("* `%s`: %s\n", name, doc)
+			}
+		}
+		fmt.Println()
+	}
+	return 0
+}
